@@ -167,7 +167,7 @@ def run(tier):
     b = vlib.build_property("C03")
     okx, xlog = vlib.build_extraction()
     n = 64 if tier == "quick" else 1600
-    jobs = compiles.corpus_jobs() + compiles.plan(FAMS, n, vlib.seed(), tag="d2", capture=True)
+    jobs = compiles.corpus_jobs(skip_for=("C03", tier)) + compiles.plan(FAMS, n, vlib.seed(), tag="d2", capture=True)
     # look-up tables of every shape Vela creates (8-bit, 16-bit interpolating, the 32-bit softmax exponent table) and
     # their slot bookkeeping: always present, whatever the shared plan drew
     jobs += compiles.plan(LUT_FAMS, 24 if tier == "quick" else 400, vlib.seed(), tag="c03lut", capture=True)
@@ -200,7 +200,16 @@ def run(tier):
                 continue
             cases.append(flat)
             meta.append((r, kk, nops, ninit))
-    outs = models.run_parallel("check_defuse", cases) if (okx and cases) else []
+    outs = []
+    if okx and cases:
+        # one validator process per stream, largest first, from a pool
+        import concurrent.futures
+        order = sorted(range(len(cases)), key=lambda i: -len(cases[i]))
+        with concurrent.futures.ThreadPoolExecutor(max_workers=vlib.NCPU) as ex:
+            done = list(ex.map(lambda i: models.run("check_defuse", [cases[i]])[0], order))
+        outs = [None] * len(cases)
+        for i, o in zip(order, done):
+            outs[i] = o
     programs = 0
     ops_total = 0
     rejected = []
